@@ -5,7 +5,7 @@ use serde::{Deserialize, Serialize};
 
 pub type KsIdx = u8;
 
-#[derive(Serialize, Deserialize, Clone, Debug, PartialEq, Eq)]
+#[derive(Serialize, Deserialize, Clone, Copy, Debug, PartialEq, Eq)]
 pub enum DbKind {
     Plain,
     SingleWriter,
